@@ -67,7 +67,94 @@ def formal_sum(ctx, space_axis, summand, rest_axes=()):
     return sym, d
 
 
+def _params(terms, exclude):
+    """generic-index / group-key constants occurring in the terms (the sum symbol is a function of them)"""
+    seen = {}
+    stack = list(terms)
+    visited = set()
+    while stack:
+        t = stack.pop()
+        if t.get_id() in visited:
+            continue
+        visited.add(t.get_id())
+        if z3.is_const(t) and t.decl().kind() == z3.Z3_OP_UNINTERPRETED:
+            n = t.decl().name()
+            if (n.startswith("gk_") or n.startswith("u_") or n.startswith("gk2_") or n.startswith("u2_") or n.startswith("seg!")) and not any(z3.eq(t, e) for e in exclude):
+                seen[n] = t
+        elif z3.is_app(t):
+            stack.extend(t.children())
+        elif z3.is_quantifier(t):
+            stack.append(t.body())
+    return [seen[k] for k in sorted(seen)]
+
+
+def formal_sum_dom(ctx, root, dom, summand):
+    """Σ_{u in root, dom(u)} summand(u) where dom/summand may mention group-key constants / other generic
+    indices: the symbol is an uninterpreted function of those parameters."""
+    dom = z3.simplify(dom)
+    summand = z3.simplify(num(summand))
+    reg = _registry(ctx)
+    for d in reg:
+        if d.space is root and z3.eq(d.dom, dom) and z3.eq(d.summand, summand):
+            return d.sym, d
+    ps = _params([dom, summand], [root.u])
+    sort = z3.IntSort() if z3.is_int(summand) else z3.RealSort()
+    if z3.is_false(dom):
+        sym = z3.IntVal(0) if z3.is_int(summand) else z3.RealVal(0)
+    elif ps:
+        f = z3.Function(fresh_name(f"sum_{root.name}"), *([p.sort() for p in ps] + [sort]))
+        sym = f(*ps)
+    else:
+        sym = z3.Const(fresh_name(f"sum_{root.name}"), sort)
+    d = SumDef(sym, root, dom, summand, ps)
+    reg.append(d)
+    return sym, d
+
+
+def axis_sum(ctx, axis, term):
+    """Σ over the rows of a frames.RowAxis / SubSpace / Space of `term` (a z3 term over the generic row)"""
+    from .frames import RowAxis
+
+    masks = []
+    a = axis
+    while isinstance(a, SubSpace):
+        masks.append(a.mask)
+        a = a.parent
+    if isinstance(a, RowAxis):
+        total = None
+        defs = []
+        for i, dd in enumerate(a.doms):
+            dom = z3.And(dd, *[a.seg_term(m, i) for m in masks]) if masks else dd
+            sym, d = formal_sum_dom(ctx, a.root, dom, a.seg_term(num(term), i))
+            defs.append(d)
+            total = sym if total is None else total + sym
+        return total, defs
+    dom = z3.And(*masks) if masks else z3.BoolVal(True)
+    sym, d = formal_sum_dom(ctx, a, dom, term)
+    return sym, [d]
+
+
 def reduce_sum(interp, v, axis):
+    from .frames import RowAxis
+
+    ax0 = _axis(v, axis)
+    a = v.axes[ax0]
+    b = a
+    while isinstance(b, SubSpace):
+        b = b.parent
+    if isinstance(b, RowAxis):
+        rest = tuple(x for i, x in enumerate(v.axes) if i != ax0)
+        t = v.t
+        if v.nan is not None:
+            t = z3.If(v.nan, 0 * num(t), num(t))  # pandas Series.sum skips NaN
+        sym, defs = axis_sum(interp.ctx, a, t)
+        out = V(sym, rest, None, None if v.series is not None else v.nan, v.inf)
+        out.meta = ("sum", defs[0] if len(defs) == 1 else defs)
+        return out
+    return _reduce_sum_plain(interp, v, axis)
+
+
+def _reduce_sum_plain(interp, v, axis):
     ax = _axis(v, axis)
     rest = tuple(a for i, a in enumerate(v.axes) if i != ax)
     sym, d = formal_sum(interp.ctx, v.axes[ax], v.t, rest)
